@@ -46,11 +46,11 @@ class PublishRules(Rule):
             if val != rq.msgId:
                 L.violate("C05", "P5", "callback-value", "publish rid=%d callback value %r != msgId %r" % (rid, val, rq.msgId))
         # ---- acks that complete an exchange must fire it (same dispatch)
-        if d.kind == "data" and not d.desync:
+        if d.kind == "data" and not d.desync and not (d.coarse and len(d.frame_fx) > 1):
             for fx in d.frame_fx:
                 tag = fx["tag"]
                 rq = fx["req"]
-                if tag in ("puback-done", "pubcomp-done"):
+                if tag in ("puback-done", "pubcomp-done") and not fx.get("after_abort"):
                     if not any(f[0] == d.seq for f in rq.fires):
                         if not d.excs:
                             L.violate("C05", "P7", "ack-without-success:%s" % tag,
@@ -133,7 +133,8 @@ class PublishRules(Rule):
         for rq in L.reqs.values():
             if rq.kind == "publish" and rq.accepted and rq.qos and rq.pending:
                 L.violate("C05", "P7", "never-settled:%s" % rq.stage(),
-                          "publish rid=%d (%s) still pending after the broker answered everything" % (rq.rid, rq.stage()))
+                          "publish rid=%d (%s) still pending after the broker answered everything" % (rq.rid, rq.stage()),
+                          despite=("collision",))
                 if rq.stage() == "held":
                     L.violate("C10", "F4", "never-sent", "publish rid=%d never transmitted" % rq.rid)
         for s in L.sess.values():
